@@ -124,7 +124,7 @@ def gen_case(rng, counting=None, tiny=True, reload=True):
     if tiny:
         cap, b, swaps = rng.choice([(1, 1, 1), (2, 1, 1), (2, 1, 2), (2, 1, 3), (2, 2, 2), (3, 1, 2), (3, 2, 3), (3, 2, 1), (4, 1, 3)])
     else:
-        cap, b, swaps = rng.choice([(5, 2, 5), (10, 2, 10), (10, 4, 20), (30, 2, 50), (7, 3, 6), (6, 5, 8), (512, 1, 4), (1024, 2, 4)])
+        cap, b, swaps = rng.choice([(5, 2, 5), (10, 2, 10), (10, 4, 20), (30, 2, 50), (7, 3, 6), (6, 5, 8)])
     rate = rng.choice([2, 2, 2, 3, 1])
     auto = rng.random() < 0.5
     fsz = rng.choice([1, 1, 1, 2])
